@@ -214,7 +214,10 @@ def run_case(case):
             except RuntimeError:
                 pass
         try:
-            h = lay.getLayoutHandler(comm, dict(layouts), list(nprocs), eta)
+            # the orderings as lists of Python ints, numpy integer arrays or lists of numpy integers (array_like is documented)
+            orep = case["sched_seed"] % 5
+            lays_in = {k_: (np.array(v_) if orep == 2 else ([np.int64(x_) for x_ in v_] if orep == 4 else list(v_))) for k_, v_ in layouts.items()}
+            h = lay.getLayoutHandler(comm, lays_in, list(nprocs), eta)
         except RuntimeError as e:
             return {"refused": str(e)}
         out = {"bad": [], "cls": set(), "n": 0, "redirect": 0}
